@@ -271,7 +271,17 @@ XalanTranscodingServices::makeNewTranscoder(
 
     XMLTransService::Codes  theCode = XMLTransService::Ok;
 
-    if (encodingIsUTF16(theEncodingName) == true)
+    // Our own transcoder just copies the code units, so it's only good
+    // for UTF-16 in the byte order of the machine we're running on.
+    const XalanDOMChar  theByteOrderTest = 1;
+
+    const bool  fLittleEndian =
+        *reinterpret_cast<const char*>(&theByteOrderTest) == 1;
+
+    if (compareIgnoreCaseASCII(theEncodingName, s_utf16String) == 0 ||
+        compareIgnoreCaseASCII(
+            theEncodingName,
+            fLittleEndian == true ? s_utf16LEString : s_utf16BEString) == 0)
     {
         theResult = OK;
 
